@@ -4,6 +4,7 @@ Property theorems only; lemmas live in Neutrino/Lemmas/Store*.lean.
 -/
 import Neutrino.Lemmas.StoreFault
 import Neutrino.Lemmas.IndexBuckets
+import Neutrino.Lemmas.StoreReads
 namespace Neutrino.Store
 
 /-- **Refinement to a plain pair of lists**, for every operation from every
@@ -59,6 +60,58 @@ theorem C07_lookups (d : Durable) (l : Log) (hrep : Rep d l) :
   cases hh : d.db.height? id with
   | none => rfl
   | some h => exact absurd (List.mem_of_getElem? (hrep.idxOnly id h hh)) hni
+
+/-- **Ancestor ranges and filter lookups by block hash answer from the list.**
+`FetchHeaderAncestors(n, hash)` of a stored hash at height `h` returns the
+`n + 1` entries of the list ending at `h` (and their start height) when
+`n ≤ h`, fails when more ancestors are asked for than exist, and fails for a
+hash that is not in the list; the filter store's lookup by block hash returns
+the filter entry at the block's height. -/
+theorem C07_ancestors (d : Durable) (l : Log) (hrep : Rep d l) (id h n : Nat) (hid : l.blocks[h]? = some id) :
+    (n ≤ h → fetchAncestors d n id = some (h - n, (l.blocks.drop (h - n)).take (n + 1))) ∧
+    (n > h → fetchAncestors d n id = none) ∧
+    fetchFilterByHash d id = l.filters[h]? ∧
+    (∀ id', id' ∉ l.blocks → fetchAncestors d n id' = none ∧ fetchFilterByHash d id' = none) := by
+  have hh : d.db.height? id = some h := hrep.idxPos h id hid
+  have hlt : h < l.blocks.length := by
+    have := List.getElem?_eq_some_iff.mp hid; exact this.1
+  refine ⟨fun hn => ?_, fun hn => ?_, ?_, fun id' hni => ?_⟩
+  · have hnot : ¬ n > h := by omega
+    simp only [fetchAncestors, hh, hnot, ↓reduceIte]
+    rw [readRange_rep hrep (h - n) h hlt (by omega)]
+    have : h - (h - n) + 1 = n + 1 := by omega
+    simp [this]
+  · simp [fetchAncestors, hh, hn]
+  · simp [fetchFilterByHash, hh, FileSt.get?, hrep.fents]
+  · have : d.db.height? id' = none := (C07_lookups d l hrep).2.2.2.2.2 id' hni
+    simp [fetchAncestors, fetchFilterByHash, this]
+
+/-- **The block locator is the list's**: it starts at the tip, names entries of
+the list at strictly decreasing heights (one step back for the first ten,
+doubling afterwards), and ends at genesis unless it is cut at the 500 entries a
+`getheaders` message can carry. -/
+theorem C07_locator (d : Durable) (l : Log) (hrep : Rep d l) :
+    let hs := locatorHeights (l.blocks.length - 1)
+    locator d = some (hs.filterMap (fun i => l.blocks[i]?)) ∧
+    hs.head? = some (l.blocks.length - 1) ∧ List.Pairwise (· > ·) hs ∧
+    (hs.getLast? = some 0 ∨ 500 ≤ hs.length) := by
+  intro hs
+  obtain ⟨tip, _, hbt⟩ := rep_btipHeight hrep
+  refine ⟨?_, locatorHeights_head _, locatorHeights_desc _, locatorHeights_last _⟩
+  simp only [locator, hbt]
+  have hget : d.bf.get? = (fun i => l.blocks[i]?) := by
+    funext i; simp [FileSt.get?, hrep.bents]
+  rw [hget]
+  apply mapM_get_of_le
+  intro x hx
+  have := locatorHeights_le _ x hx
+  have hne := len_pred_succ hrep.neB
+  omega
+
+/-- what `C07_ancestors` and `C07_locator` rely on in headerfs/store.go (regenerated
+on every run; `wire.MaxBlockLocatorsPerMsg` = 500 is btcd's constant, trusted) -/
+theorem C07_reads_source_shape :
+    Gen.Store.ancestorsRangeEndsAtHash = true ∧ Gen.Store.locatorStepsBackDoubling = true := by decide
 
 /-- **Rolled-back entries are no longer found.** -/
 theorem C07_rolled_back_not_found (d : Durable) (l : Log) (n : Nat) (hrep : Rep d l)
@@ -189,6 +242,8 @@ example :
      (b.delEntries (fun j => j % 2) [1, 2]).map (fun b' => (b'.get (fun j => j % 2) 1, b'.get (fun j => j % 2) 2)),
      (b.delEntries (fun j => j % 2) [3]).isSome) =
     (some 1, some 2, none, some (none, none), false) := by rfl
+example : locatorHeights 40 = [40, 39, 38, 37, 36, 35, 34, 33, 32, 31, 30, 28, 24, 16, 0] := by decide
+example : fetchAncestors (exec init (.wb [1, 2, 3]) .none).1 2 3 = some (1, [1, 2, 3]) := by decide
 example : ContractAll Log.init [.wb [1, 2, 3], .wf [1, 2], .rb 1, .rf, .rollto 1] := by
   simp [ContractAll, Contract, Log.init, Log.apply]
 example : (exec init (.wb [1, 2]) (.fault .shortwrite 0 100)).2 = .err := by decide
